@@ -54,6 +54,12 @@ def corpus():
         "3 c: c. v|rg;sc 0 1;sc 1 1;sc 0 1;pv 2;sc 3 1;sc 1 1;rm",
         "4 k. k. v|sk 0 2;sk 1 2;rg;sl 0 0 1 1;in 0 1;dl 0 0;cl 1;cl 0",
         "4 b. v|rg;ds 0 1;ds 0 1;ds 0 2;dd 0 7;sl 0 3 1 1;sc 9 1;dc 0;dc 0",
+        # one update() / |= that both replaces existing keys and adds new ones (seeded change C16-m1)
+        "4 b: v|rg;ds 0 0;ds 0 1;du 0 0 2 1;ds 0 2;di 0 2 4;sd 0 4;sd 0 5;dp 0 0;dq 0",
+        "0 c. b. v|sc 0 1;rg;du 1 1 2;di 1 2 3 1;dq 1;dp 1 1",
+        # value-equality nodes, items replaced by equal clones (seeded change C16-m2)
+        "E 4 k: v|rg;sk 0 3;si 0 0;sl 0 1 3 2;si 0 2;ap 0;sl 0 0 2 2",
+        "E 4 b. k. v|rg;ds 0 0;sk 1 2;si 1 1;ds 0 0;du 0 0 1;ap 2",
     ]
 
 
